@@ -308,6 +308,52 @@ theorem supplied_unnamed (profiles : List String) (ms : List ApiMatrix) (k : Nat
       · have h1 : ¬ (k + 1 ≤ i) := by omega
         rw [if_neg h1, if_neg hle]
 
+/-- the reader's conversion with its error reporting succeeds exactly with the data of `toMatrixDataAll`, and then every
+    list of error codes has the length of the distances (0684041) -/
+theorem toMatrixDataAllE_ok (profiles : List String) (ms : List ApiMatrix) (k : Nat) (data : List MatrixData)
+    (h : toMatrixDataAllE profiles k ms = .ok data) :
+    toMatrixDataAll profiles k ms = some data ∧
+    ∀ m ∈ ms, ∀ codes, m.errorCodes = some codes → codes.length = m.distances.length := by
+  induction ms generalizing k data with
+  | nil =>
+    unfold toMatrixDataAllE at h
+    cases h
+    exact ⟨rfl, by simp⟩
+  | cons m rest ih =>
+    unfold toMatrixDataAllE at h
+    cases hm : toMatrixDataE profiles k m with
+    | error e => rw [hm] at h; cases h
+    | ok d =>
+      rw [hm] at h
+      simp only at h
+      cases hr : toMatrixDataAllE profiles (k + 1) rest with
+      | error e => rw [hr] at h; cases h
+      | ok ds =>
+        rw [hr] at h
+        simp only at h
+        cases h
+        obtain ⟨ih1, ih2⟩ := ih (k + 1) ds hr
+        unfold toMatrixDataE at hm
+        by_cases hlen : codesLengthBad m = true
+        · rw [if_pos hlen] at hm; cases hm
+        · rw [if_neg hlen] at hm
+          cases hd : toMatrixData profiles k m with
+          | none => rw [hd] at hm; cases hm
+          | some d' =>
+            rw [hd] at hm
+            cases hm
+            constructor
+            · unfold toMatrixDataAll
+              rw [hd, ih1]
+            · intro x hx codes hc
+              rcases List.mem_cons.mp hx with e | e
+              · subst e
+                unfold codesLengthBad at hlen
+                rw [hc] at hlen
+                simp at hlen
+                exact hlen
+              · exact ih2 x e codes hc
+
 /-- what an accepted reader input looks like, whatever the S28 variant -/
 theorem createTransportCosts_ok (mode : ReaderMode) (profiles : List String) (ms : List ApiMatrix) (pr : Provider)
     (h : createTransportCosts mode profiles ms = .ok pr) :
@@ -335,7 +381,7 @@ theorem createTransportCosts_ok (mode : ReaderMode) (profiles : List String) (ms
                 · cases h
                 · rename_i p hp
                   cases h
-                  refine ⟨?_, data, hdata, hp⟩
+                  refine ⟨?_, data, (toMatrixDataAllE_ok profiles ms 0 data hdata).1, hp⟩
                   simp only [Bool.and_eq_true, Bool.not_eq_true', not_and, Bool.not_eq_false] at h1
                   by_cases ha : ms.all (fun m => m.profile.isSome) = true
                   · exact Or.inl ha
